@@ -409,9 +409,24 @@ def snap(app, kind, db):
         return dump_sqlite(db, sanitize_table_prefix(app.app_id) + "__")
     return mem_snapshot(app)
 
+def _app_info(app):
+    sb = app.state_backend
+    try:
+        info = sb.get_app_info()
+        own = getattr(info, "app_id", None)
+    except Exception as e:
+        own = "raises " + type(e).__name__
+    listed = None
+    if type(sb).__name__ == "MemStateBackend":        # (the SQLite discovery reads the default database path, not this one)
+        try:
+            listed = app.app_id in type(sb).discover_app_infos()
+        except Exception as e:
+            listed = "raises " + type(e).__name__
+    return (own, listed)
+
 def observers(app, invs):
     o = app.orchestrator
-    return (app.broker.count_invocations(), o.count_invocations(),
+    return (_app_info(app), app.broker.count_invocations(), o.count_invocations(),
             [o.get_invocation_status(i.invocation_id).value for i in invs],
             app.state_backend.get_result(invs[0].invocation_id) if invs else None,
             [len(app.state_backend.get_history(i.invocation_id)) for i in invs])
